@@ -158,8 +158,7 @@ func readerProgram(r *Rng, meta GraphMeta, d Dialect, n int) []string {
 			add("attempt(lambda: %s.update({\"q\": 1}))\n", x)
 			add("attempt(lambda: %s.add(1))\n", x)
 		case 13:
-			ms := mutators[r.Pick([]string{"list", "dict", "set"})]
-			m := ms[r.Intn(len(ms))]
+			m := pickMutator(r, r.Pick([]string{"list", "dict", "set"}))
 			if !defs[m.Name] {
 				defs[m.Name] = true
 				add("%s", m.Def)
